@@ -72,6 +72,12 @@ def gen_obj(rng, cls, L, scale):
     if "vertices" in s:
         s["vertices"] = (np.array(s["vertices"]) * scale).tolist()
     s["position"] = (np.array(s["position"]) * scale).tolist()
+    if cls == "Triangle" and rng.random() < 0.4:
+        # polarization along the facet normal (or none): the display switches to a thin prism for the colour gradient
+        v = np.array(s["vertices"])
+        nrm = np.cross(v[1] - v[0], v[2] - v[1])
+        s["polarization"] = (nrm / np.linalg.norm(nrm) * float(rng.choice([-0.7, 0.0, 1.3]))).tolist()
+        s["normal_polarization"] = True
     return s
 
 
@@ -248,6 +254,10 @@ def check_body(ctx, case, spec, pts_m, key):
     best = dist.min(axis=0)
     ctx.count("body_vertices_checked", len(pts_m))
     tolv = 1e-6 * size + 1e-9 * (np.max(np.abs(pts_m)) if len(pts_m) else 0)
+    if spec.get("normal_polarization"):
+        # documented display trick: a facet polarized along its normal is drawn as a thin prism (two copies of the
+        # facet 1e-3 of its size apart) so that the colour gradient shows; thin means thin at every facet size
+        tolv += 2e-3 * size
     if np.any(best > tolv):
         j = int(np.argmax(best))
         ctx.violation({**key, "kind": "drawn-vertex-off-surface"}, case,
@@ -335,7 +345,20 @@ def check_obj(ctx, case, spec, traces, unit, key):
         if case["decorations"]:
             # decorations are not the body: only require that the vertices which ARE on the body cover its extent
             dist = min_dist_any_index(spec, pts)
-            pts = pts[dist <= 1e-6 * objs.size_of(spec) + 1e-9 * np.max(np.abs(pts))]
+            keep = dist <= 1e-6 * objs.size_of(spec) + 1e-9 * np.max(np.abs(pts))
+            if spec.get("normal_polarization"):
+                # thin-prism display of the facet: its corners sit on the facet normal through a corner of the facet,
+                # at most 2e-3 sizes from it (decoration vertices near the facet are not on those lines)
+                V = np.array(spec["vertices"], float)
+                nh = np.cross(V[1] - V[0], V[2] - V[1])
+                nh /= np.linalg.norm(nh)
+                sz = objs.size_of(spec)
+                for i in range(objs.path_len(spec)):
+                    rel = G.to_local(spec, pts, m=i)[:, None, :] - V[None, :, :]
+                    along = rel @ nh
+                    across = np.linalg.norm(rel - along[..., None] * nh, axis=2)
+                    keep |= np.any((np.abs(along) <= 2e-3 * sz) & (across <= 1e-6 * sz + 1e-9 * np.max(np.abs(pts))), axis=1)
+            pts = pts[keep]
         check_body(ctx, case, spec, pts, key)
     elif cls in ("Polyline", "Circle"):
         if not lines:
